@@ -328,7 +328,7 @@ pre {
 
     # build the skipped string to insert in the report
     skipped_str = "".join(
-        f"{fname} <b>reason:</b> {reason}<br>"
+        f"{html_escape(fname)} <b>reason:</b> {html_escape(str(reason))}<br>"
         for fname, reason in manager.get_skipped()
     )
     if skipped_str:
@@ -362,12 +362,12 @@ pre {
             issue_class=f"issue-sev-{issue.severity.lower()}",
             test_name=issue.test,
             test_id=issue.test_id,
-            test_text=issue.text,
+            test_text=html_escape(issue.text),
             severity=issue.severity,
             confidence=issue.confidence,
             cwe=issue.cwe,
             cwe_link=issue.cwe.link(),
-            path=issue.fname,
+            path=html_escape(issue.fname),
             code=code,
             candidates=candidates,
             url=url,
